@@ -1,6 +1,6 @@
 (* Props/C10.v — property theorems for C10 only; each closed by `exact` of a lemma proved
    elsewhere, with Print Assumptions beneath. *)
-From KV Require Import Bytes BytesProofs WalCodec WalCodecProofs.
+From KV Require Import Bytes BytesProofs WalCodec WalCodecProofs WalReuse.
 Open Scope N_scope.
 
 Theorem C10_truncate : forall es n,
@@ -34,3 +34,28 @@ Theorem C10_corrupt : forall es i b,
   (is_prefix out (map canon es) \/ crc_accepted_over L' i).
 Proof. exact WalCodecProofs.C10_corrupt. Qed.
 Print Assumptions C10_corrupt.
+
+(* last sentence of C10: writes acknowledged after such a recovery are themselves recoverable.
+   [reuse_append] is wal.ReuseWAL's decision (append behind a clean newest file, otherwise a
+   new file); older files [pre] are arbitrary bytes and are never altered or discarded *)
+Theorem C10_cut_then_writes : forall pre es n es',
+  forallb wf_entry es = true -> forallb wf_entry es' = true ->
+  let damaged := firstn n (encode_log es) in
+  let files' := reuse_append (pre ++ [damaged]) (encode_log es') in
+  replay_dir files' =
+    replay_dir pre ++ map canon (firstn (whole_within es n) es) ++ map canon es' /\
+  replay_dir files' = replay_dir (pre ++ [damaged]) ++ map canon es' /\
+  firstn (length pre) files' = pre /\
+  snd (replay_file (last files' [])) = Clean.
+Proof. exact WalReuse.C10_cut_then_writes. Qed.
+Print Assumptions C10_cut_then_writes.
+
+(* the same for ANY newest file whose replay does not end cleanly (flipped bytes, garbage) *)
+Theorem C10_damage_then_writes : forall pre L es',
+  snd (replay_file L) <> Clean -> forallb wf_entry es' = true ->
+  let files' := reuse_append (pre ++ [L]) (encode_log es') in
+  replay_dir files' = replay_dir (pre ++ [L]) ++ map canon es' /\
+  firstn (length (pre ++ [L])) files' = pre ++ [L] /\
+  snd (replay_file (last files' [])) = Clean.
+Proof. exact WalReuse.C10_damage_then_writes. Qed.
+Print Assumptions C10_damage_then_writes.
